@@ -250,10 +250,10 @@ panic_finding("ident-unwrap", "prqlc-parser/src/parser/pr/ident.rs", "called `Op
  "PL JSON with an empty Ident path: {\"Ident\": []}", "json::to_pl")
 panic_finding("lowering-unwrap", "prqlc/src/semantic/lowering.rs", "called `Option::unwrap()` on a `None` value",
  "from [{id = 1, k = 5, k = -5}, {id = 4, k = -5}] | select {id}", "compile / pl_to_rq",
- "a relation literal whose row repeats a field name (found by the libFuzzer target src_stages).", input_kind="source", input_contains="[")
+ "a relation literal whose row repeats a field name (found by the libFuzzer target src_stages).", input_contains="[")
 panic_finding("lowering-literal-row-unwrap", "prqlc/src/semantic/lowering.rs", "called `Result::unwrap()` on an `Err` value",
  "from t3 = ([take -1 {id = 0, a = 0}, {id = 0, a = 0, b = 0}]) | select {id, a}", "compile / pl_to_rq",
- "an array in relation position whose element is not a tuple (here a function applied to a tuple): `row.kind.into_tuple().unwrap()` (found by token mutation of relation-literal programs at seed 2).", input_kind="source", input_contains="[")
+ "an array in relation position whose element is not a tuple (here a function applied to a tuple): `row.kind.into_tuple().unwrap()` (found by token mutation of relation-literal programs at seed 2).", input_contains="[")
 panic_finding("transforms-lineage-unwrap", "prqlc/src/semantic/resolver/transforms.rs", "called `Result::unwrap()` on an `Err` value",
  "from t2 | select {a, b} | window ((rank a) > from) | select {a}", "compile / pl_to_rq",
  "`lineage_or_default(body).unwrap()` in infer_lineage: the body of a `window` / `group` pipeline is not a relation (e.g. a comparison) - `expected .. to have table type` is unwrapped instead of returned (found by token mutation at seed 3).")
